@@ -371,6 +371,7 @@ func (p *typeCaseStmt) Then(cb *CodeBuilder, src ...ast.Node) {
 			typ = pss.xType
 		}
 		name := types.NewParam(token.NoPos, cb.pkg.Types, pss.name, typ)
+		cb.pkg.useName(pss.name)
 		cb.current.scope.Insert(name)
 	}
 }
